@@ -119,11 +119,27 @@ def interp_level(ctx: Ctx):
             for o in ys:
                 lines.append('lagr_grad ' + enc([lagr.state_grids(st, names), [q(t) for t in x], [q(t) for t in ys[o].tolist()]]))
                 meta.append((case, o, grad[o], gn, ys[o]))
+                if hess is not None:
+                    lines.append('lagr_hess ' + enc([lagr.state_grids(st, names), [q(t) for t in x], [q(t) for t in ys[o].tolist()]]))
+                    meta.append((case, o, ('hess', hess[o]), gn, ys[o]))
     for (case, o, gimpl, gn, y), mo in zip(meta, run_model(lines, shards=16)):
         if isinstance(mo, ModelError):
             ctx.disagree('C11:model-error', case, str(mo), None); continue
         minsep = min([abs(a - b) for g in gn for a in g for b in g if a != b] or [Fraction(1)])
         scale = (sum(abs(Fraction(t)) for t in y.tolist()) + 1) / minsep * 16
+        if isinstance(gimpl, tuple):         # Hessian: model thess versus Lagrange.hessian, entry by entry
+            ctx.count('hessians_compared')
+            msp = [min([abs(a - b) for a in g for b in g if a != b] or [Fraction(1)]) for g in gn]
+            bad = False
+            for m_, row in enumerate(gimpl[1]):
+                for n_, hv in enumerate(row):
+                    sc = (sum(abs(Fraction(t)) for t in y.tolist()) + 1) * 16 / (msp[m_] * msp[n_])
+                    near = 'near' in case['kinds'] or 'band' in case['kinds']
+                    if not (hv == hv and abs(Fraction(hv) - unq(mo[m_][n_])) <= Fraction(1, 10 ** (6 if near else 8)) * sc):
+                        ctx.disagree('C11:Lagrange.hessian', {**case, 'output': o, 'entry': (m_, n_)}, float(unq(mo[m_][n_])), hv); bad = True; break
+                if bad:
+                    break
+            continue
         for k, (gi, gm) in enumerate(zip(gimpl, mo)):
             if not (gi == gi and abs(Fraction(gi) - unq(gm)) <= Fraction(1, 10 ** 8) * scale):
                 ctx.disagree('C11:Lagrange.gradient', {**case, 'output': o, 'dim': k}, float(unq(gm)), gi)
